@@ -917,7 +917,12 @@ func lemmaCreateThenMapQueue(data []byte, cap uint32) {
 //@   at call (*streamPool).pop#1 ghost leak := leak || pending != 0
 //@   at call (*streamPool).pop#1 ghost pending := r0
 //@   at call? (*Stream).Close#0 ghost pending := ite(a0 == pending, 0, pending)
+//@   ghost var sawOpen int = 0
+//@   ghost var sawLive int = 0
+//@   at call? (*Stream).IsOpen#0 ghost sawOpen := ite(r0, a0, 0)
+//@   at call? (*Session).IsClosed#0 ghost sawLive := ite(r0, 0, pending)
 //@   exit[C15] r1 == nil ==> r0 != nil && !leak && (pending == 0 || pending == r0)
+//@   exit[C15] r1 == nil && pending == r0 ==> sawOpen == r0 && sawLive == r0      // a stream taken from the pool is handed out only after it was seen open, on a session seen live, after it was popped
 //@   exit[C15] r1 != nil ==> r0 == nil && !leak && pending == 0
 //@   loop 0 invariant wfPool(p) && !leak && (stream == pending || pending == 0) && (stream == nil ==> pending == 0)
 //@   modifies heap, all(Stream.pool)
@@ -1142,7 +1147,10 @@ func lemmaCreateThenMapQueue(data []byte, cap uint32) {
 //@   at call sync/atomic.CompareAndSwapUint32#0 ghost s.remoteClosed := s.remoteClosed || r0
 //@   at call? OnRemoteClose#0 hint[C10] won
 //@   at call? OnRemoteClose#0 ghost cbs := cbs + 1
+//@   ghost var woken bool = false
+//@   at call? (*Stream).safeCloseNotify#0 ghost woken := true
 //@   exit[C10] cbs <= 1 && (cbs == 1 ==> won)
+//@   exit[C10] won ==> woken      // the peer's close wakes blocked readers (closeNotifyCh), so they drain and observe end-of-stream
 //@   modifies heap
 
 //@ func (*Stream).Close
@@ -1172,7 +1180,10 @@ func lemmaCreateThenMapQueue(data []byte, cap uint32) {
 //@   at call? (*queue).put#0 ghost notified := notified || r0 == nil
 //@   at call? (*Session).waitForSend#0 hint[C10,C07] len(a2) == 12 && be32(a2, 0) == 12 && be16(a2, 4) == 30552 && mem8(a2, 7) == 2 && be32(a2, 8) == s.id   // the StreamClose event decodes (handleStreamClose) to this stream's id
 //@   at call? (*Session).waitForSend#0 ghost notified := true
+//@   ghost var woken bool = false
+//@   at call? (*Stream).safeCloseNotify#0 ghost woken := true
 //@   exit[C10] cbs <= 1 && (won ==> cleaned)
+//@   exit[C10] won && oldState == 0 ==> woken      // goroutines blocked on this stream are released (from halfClosed they already were)
 //@   ghost var putOK bool = false
 //@   ghost var woke bool = false
 //@   at call? (*queue).put#0 hint[C07] a1.seqID == s.id && a1.status == 1
